@@ -265,6 +265,13 @@ int bisecting_kmeans(struct msa* msa, struct node** ret_n, const float * const *
                                 }
                         }
                 }
+#ifdef KALIGN_VERIF
+                /* a round without improvement normally ends the search; the
+                   harness may ask for the remaining rounds as well */
+                if(!change && KALIGN_VERIF_UNUSUAL(KV_SITE_KM_ALL_ROUNDS, num_samples)){
+                        change = 1;
+                }
+#endif
                 if(!change){
                         break;
                 }
